@@ -521,5 +521,14 @@ func VerifC18FloatArrays() {
 	o2, e2 := vRender(t, Bindings{"a": other})
 	nd.Assert(e1 == nil && e2 == nil, "float-array-no-error")
 	nd.Assert(o1 == o2, "float-array-rep-same-output")
+	// join spells every element as it prints: whole floats without exponent, a pointer as what it
+	// points to (never an address), a nil pointer like nil
+	var np *float64
+	o3, e3 := vRender("{{ a | join: ';' }};", Bindings{"a": other})
+	o4, e4 := vRender("{% for v in a %}{{ v }};{% endfor %}", Bindings{"a": canon})
+	nd.Assert(e3 == nil && e4 == nil && o3 == o4, "join-spells-elements-as-they-print")
+	o5, e5 := vRender("{{ a | join: ';' }}", Bindings{"a": []any{&x, np, "s", &y}})
+	o6, e6 := vRender("{{ a | join: ';' }}", Bindings{"a": []any{x, "s", y}})
+	nd.Assert(e5 == nil && e6 == nil && o5 == o6, "join-dereferences-pointer-elements")
 	nd.Reach("C18.floatarrays")
 }
